@@ -902,7 +902,8 @@ def exhaustive_small_regexes(tier, builtins, log):
     for d in defs:
         dd = corpus.split_dump(corpus.read_dump(dump, d['name']))
         if dd is not None:
-            lines += corpus.lexmodel_input(d['name'], def_lines(d), dd['body'], True, [])
+            dls, dd = corpus.canon_actions(def_lines(d, True), dd)
+            lines += corpus.lexmodel_input(d['name'], dls, dd['body'], True, [])
     rc, out, err = corpus.run_lexmodel(lines, timeout=3000)
     stage, info, _, _ = corpus.parse_lexmodel(out)
     shutil.rmtree(ws, ignore_errors=True)
@@ -1041,14 +1042,15 @@ def rule_text_plain(it, redundant):
     return lhs + ' =? |l| l.continue_(),'
 
 
-def expected_parse(d):
+def expected_parse(d, expr_of=None):
     """what the parse op of the component server prints for a definition: the AST, and for every rule its kind and the index of its
     right-hand side in the semantic action table (assigned in source order)"""
     out = ['OK']
     idx = [0]
 
     def rule_s(x):
-        s = ' '.join(['rule', 're'] + re_tokens(x[2], []) + ((['ctx'] + re_tokens(x[3], [])) if x[3] is not None else []) + ['kind', x[1], 'rhs', str(idx[0])])
+        ex = (expr_of or (lambda kind, k: {'none': '-', 'simple': '1'}.get(kind, '|l|l.continue_()')))(x[1], idx[0])
+        s = ' '.join(['rule', 're'] + re_tokens(x[2], []) + ((['ctx'] + re_tokens(x[3], [])) if x[3] is not None else []) + ['kind', x[1], 'rhs', str(idx[0]), 'expr', ex])
         idx[0] += 1
         return s
     for it in d['items']:
@@ -1331,6 +1333,62 @@ def _dt_e_canonical(t):
     return True
 
 
+def _dt_positions_canonical(t):
+    """the converse: wherever the real parser asks syn for an EXPRESSION or a TYPE there is exactly one opaque token, followed by the
+    delimiter. Rust's own expression and type grammars are outside the model: `= rule ,`, `= 'a' ,`, `= _ = T2 ,`, `type Error = _ ;` are all
+    accepted by syn, and a mutation can produce them."""
+    n = len(t)
+    for i, x in enumerate(t):
+        if x == '=>':
+            if not (i + 2 < n and t[i + 1].startswith('e:') and t[i + 2] == ','):
+                return False
+        elif x == '=':
+            if i >= 2 and t[i - 2] == 'let' and t[i - 1].startswith('id:'):
+                continue                                    # a binding: a regex follows
+            if i >= 2 and t[i - 2] == 'type':
+                if not (i + 2 < n and t[i + 1].startswith('e:') and t[i + 2] == ';'):
+                    return False
+                continue
+            j = i + 2 if (i + 1 < n and t[i + 1] == '?') else i + 1
+            if not (j + 1 < n and t[j].startswith('e:') and t[j + 1] == ','):
+                return False
+        elif x == 'type':
+            if not (i + 2 < n and t[i + 1] == 'id:Error' and t[i + 2] == '='):
+                # `type X = ..` with another name, or `type` elsewhere: whether syn's lookahead sees an item, a type or an expression here is
+                # again Rust grammar
+                return False
+    return True
+
+
+def _canon_rhs(real, others):
+    """`parse` outputs list every rule with `kind K rhs N`, N = index into the semantic-action table. The model numbers rules in source order;
+    the macro may let rules WITHOUT a right-hand side share an entry (their actions are identical) or number entries differently — no property
+    forbids that. Rename the indices of `real` to the source-order number of the first rule using the entry, and rename `others` (expected
+    output, model output: same rules, source-order indices) rule by rule in the same way. Sharing between rules that have a right-hand
+    side is NOT renamed away. -> (real', others')"""
+    pat = re.compile(r'kind (\w+) rhs (\d+)')
+    rr = pat.findall(real)
+    if not rr:
+        return real, others
+    idx = [int(n) for _k, n in rr]
+    if idx == list(range(len(idx))):
+        return real, others
+    users = {}
+    for k, v in enumerate(idx):
+        users.setdefault(v, []).append(k)
+    for v, ks in users.items():
+        if len(ks) > 1 and any(rr[k][0] != 'none' for k in ks):
+            return real, others
+    canon = [min(users[v]) for v in idx]
+
+    def ren(text):
+        if len(pat.findall(text)) != len(canon):
+            return text
+        it = iter(canon)
+        return pat.sub(lambda m: 'kind %s rhs %d' % (m.group(1), next(it)), text)
+    return ren(real), [ren(o) if o is not None else None for o in others]
+
+
 def defparser_stream(tier, seed, builtins, log, verdict_only=False):
     rng = random.Random(seed * 17 + 160)
     g = gen_defs.Gen(rng, builtins, unicode_p=0.05)
@@ -1355,7 +1413,7 @@ def defparser_stream(tier, seed, builtins, log, verdict_only=False):
             continue
         for red in (None, rng):
             t = _dt_def(d, rng, red)
-            cases.append((t, expected_parse(d)))
+            cases.append((t, expected_parse(d, lambda kind, k: '-' if kind == 'none' else 'T%d' % (k + 1))))
         # mutations of the token list: delete / insert / replace / swap punctuation, regex tokens and keywords
         for _ in range(3):
             t = list(_dt_def(d, rng, None))
@@ -1371,7 +1429,7 @@ def defparser_stream(tier, seed, builtins, log, verdict_only=False):
                 else:
                     j = rng.randrange(len(t))
                     t[i], t[j] = t[j], t[i]
-            if _dt_balanced(t) and _dt_e_canonical(t) and t[:4] == ['id:L', '->', 'e:0', ';']:
+            if _dt_balanced(t) and _dt_e_canonical(t) and _dt_positions_canonical(t) and t[:4] == ['id:L', '->', 'e:0', ';']:
                 cases.append((t, None))
     impl, err = component_server('lexgen', ['parse ' + ' '.join(_dt_render(x) for x in t) for t, _ in cases])
     if impl is None:
@@ -1384,6 +1442,8 @@ def defparser_stream(tier, seed, builtins, log, verdict_only=False):
         m = ' '.join(model[i].split())[len('PARSEDEF '):] if i < len(model) and model[i].startswith('PARSEDEF') else None
         verdicts[real.split()[0] if real else '?'] = verdicts.get(real.split()[0] if real else '?', 0) + 1
         text = ' '.join(_dt_render(x) for x in t)
+        exp = ' '.join(exp.split()) if exp is not None else None
+        real, (exp, m) = _canon_rhs(real, [exp, m])
         if verdict_only:
             # C17: a token sequence the definition-parser model rejects must be rejected by the real parser
             if m is not None and m.startswith('ERR') and real.startswith('OK') and len(violations) < 4:
